@@ -241,6 +241,23 @@ func sweepCases(all bool) []*Case {
 						c.Content = ""
 						add(c)
 					}
+					{
+						// the judged call follows a clean and a failed call on the same consumer
+						c := base
+						c.Warm, c.WarmFail = 1, true
+						add(c)
+						c.R = Script{Chunks: []int{5}, EOFData: true}
+						add(c)
+					}
+					if isIn(userFailDestKinds, kind) && pre == "" {
+						for _, content := range []string{sweepBytes, "x", ""} {
+							c := base
+							c.Content, c.UFail = mon.Q(content), true
+							add(c)
+							c.R = Script{Chunks: []int{1}}
+							add(c)
+						}
+					}
 					if pre != "" {
 						continue
 					}
@@ -269,6 +286,38 @@ func sweepCases(all bool) []*Case {
 				e = base
 				e.Warm = 2
 				add(e)
+				e.WarmFail = true
+				add(e)
+				for _, wk := range writerKinds {
+					c := base
+					c.WK = wk
+					add(c)
+					c.Content = ""
+					add(c)
+					c = base
+					c.WK, c.O = wk, Script{Chunks: []int{4}}
+					add(c)
+					if wk == "bytes.Buffer" {
+						continue
+					}
+					for k := 0; k <= L+16; k += 1 {
+						if k > L && (kind != "struct" && kind != "*struct" && kind != "slice") {
+							break
+						}
+						c := base
+						c.WK, c.W, c.O = wk, Script{Fault: true, ErrAt: k, Sticky: k%2 == 0}, Script{Chunks: []int{4}}
+						add(c)
+					}
+				}
+				if isIn(userFailSrcKinds, kind) {
+					for _, content := range []string{sweepBytes, ""} {
+						for _, wk := range append([]string{""}, writerKinds...) {
+							c := base
+							c.Content, c.UFail, c.WK = mon.Q(content), true, wk
+							add(c)
+						}
+					}
+				}
 				for k := 0; k <= L+16; k++ {
 					if k > L && (kind != "struct" && kind != "*struct" && kind != "slice") {
 						break
@@ -317,6 +366,13 @@ func sweepCases(all bool) []*Case {
 			wm := base
 			wm.Warm = 1
 			add(wm)
+			wm.WarmFail = true
+			add(wm)
+			for _, wk := range writerKinds {
+				c := base
+				c.WK = wk
+				add(c)
+			}
 			for _, ch := range [][]int{{1}, {0, 0, 2}, {7}} {
 				c := base
 				c.R = Script{Chunks: ch, EOFData: ch[0] == 7}
@@ -331,6 +387,10 @@ func sweepCases(all bool) []*Case {
 				c := base
 				c.W = Script{Fault: true, ErrAt: k, Sticky: k%2 == 0}
 				add(c)
+				if all || k%4 == 1 {
+					c.WK = []string{"plain", "bufio"}[(k/4)%2]
+					add(c)
+				}
 				c = base
 				c.R = Script{Chunks: []int{5}, Fault: true, ErrAt: k, ErrData: k%2 == 1}
 				add(c)
@@ -361,6 +421,18 @@ func sweepCases(all bool) []*Case {
 		add(Case{Codec: codec, Dir: "roundtrip", Kind: "string", Content: "0123456789abcdef", Rep: mib, Num: "1", R: Script{Chunks: []int{4096, 1, 70000}, EOFData: true}})
 		add(Case{Codec: codec, Dir: "roundtrip", Kind: "struct", Content: "0123456789abcdef", Rep: mib, Num: "1"})
 	}
+	// one content above 32 MiB in every run (the quick tier: one case; the reader generates it from the pattern)
+	bigKinds := []string{"*[]byte"}
+	if all {
+		bigKinds = []string{"*[]byte", "*string", "*iface-bytes", "*named-string", "binunm", "writer", "readerfrom"}
+	}
+	for i, kind := range bigKinds {
+		add(Case{Codec: "bytestream", Dir: "consume", Kind: kind, Content: bigPattern, Rep: bigRep, Close: i%2 == 1, R: Script{Chunks: []int{65536, 1, 70000}, EOFData: i%2 == 0}, DBuf: 65536})
+	}
+	if all {
+		add(Case{Codec: "text", Dir: "consume", Kind: "*string", Content: bigPattern, Rep: bigRep, R: Script{Chunks: []int{1 << 20}}})
+		add(Case{Codec: "bytestream", Dir: "consume", Kind: "*[]byte", Content: bigPattern, Rep: bigRep, RK: "plain", R: Script{Chunks: []int{1 << 20}, Fault: true, ErrAt: 33554432}})
+	}
 	for _, kind := range []string{"*string", "*[]byte", "buffer", "nil", "nil-*string"} {
 		add(Case{Codec: "discard", Dir: "consume", Kind: kind, Content: "payload", Pre: "old"})
 	}
@@ -371,6 +443,13 @@ func sweepCases(all bool) []*Case {
 }
 
 var concreteReaders = []string{"bytes.Buffer", "bytes.Reader", "strings.Reader"}
+
+// writerKinds: the writers handed to Produce besides the scripted io.WriteCloser.
+var writerKinds = []string{"plain", "bytes.Buffer", "bufio"}
+
+// bigPattern x bigRep = 33554443 bytes: 11 bytes above 32 MiB; the 13-byte pattern is aligned with no buffer size.
+const bigPattern = "0123456789ab\n"
+const bigRep = 2581111
 
 func pick(r *rand.Rand, l []string) string { return l[r.Intn(len(l))] }
 
@@ -412,6 +491,10 @@ func genCase(r *rand.Rand, allowHuge bool) *Case {
 				c.Kind = pick(r, sup)
 				if r.Intn(4) == 0 && total < 100000 {
 					c.Warm = 1 + r.Intn(2)
+					c.WarmFail = r.Intn(2) == 0
+				}
+				if isIn(userFailDestKinds, c.Kind) && r.Intn(3) == 0 {
+					c.UFail = true
 				}
 				if strings.HasPrefix(c.Kind, "*") && r.Intn(3) == 0 {
 					p, _ := genBytes(r, false)
@@ -450,6 +533,13 @@ func genCase(r *rand.Rand, allowHuge bool) *Case {
 			}
 			if r.Intn(4) == 0 && total < 100000 {
 				c.Warm = 1 + r.Intn(2) // the producer instance is reused
+				c.WarmFail = r.Intn(2) == 0
+			}
+			if r.Intn(4) == 0 {
+				c.WK = pick(r, writerKinds)
+			}
+			if isIn(userFailSrcKinds, c.Kind) && r.Intn(3) == 0 {
+				c.UFail = true
 			}
 		}
 	case "json", "xml", "yaml":
@@ -488,6 +578,10 @@ func genCase(r *rand.Rand, allowHuge bool) *Case {
 		c.Num = pick(r, numPool)
 		if r.Intn(5) == 0 {
 			c.Warm = 1 // producer and consumer instances are reused
+			c.WarmFail = r.Intn(2) == 0
+		}
+		if r.Intn(5) == 0 {
+			c.WK = pick(r, writerKinds)
 		}
 		v, _, _ := buildValue(c)
 		n := refLen(c.Codec, v)
